@@ -322,6 +322,18 @@ def _fact(res, name, n=1):
     res.facts[name] = res.facts.get(name, 0) + n
 
 
+def _task_of(rel, names):
+    '''The task that a file below the output root belongs to: the longest
+    task name that is a directory prefix of its path relative to the root
+    (the first component for a file that belongs to none).'''
+    best = None
+    for name in names:
+        if rel.startswith(name + os.sep) and \
+                (best is None or len(name) > len(best)):
+            best = name
+    return best if best is not None else rel.split(os.sep)[0]
+
+
 def _viol(res, cls, sig, detail):
     res.violations.append((cls, sig, detail))
 
@@ -568,6 +580,8 @@ def _run_history(scn, sim, res, root):
                 sim.nontrivial = True
             _fact(res, 'reads')
             # which files could not be read because of an injected fault?
+            # (a task name may have a directory part, 'grp/nested': the task is
+            # the one whose directory below the root holds the file)
             unreadable = set()
             for side, index, rel in fs.log:
                 if side != 'r':
@@ -575,7 +589,7 @@ def _run_history(scn, sim, res, root):
                 for flt in fs.fired_log:
                     if flt['file'] == index and flt['kind'] in ('read-eio',
                                                                 'open-fail'):
-                        unreadable.add(rel.split(os.sep)[0])
+                        unreadable.add(_task_of(rel, names))
             sim.event('read', [s[0] for s in states], sorted(unreadable),
                       got is not None)
             if got is not None:
